@@ -125,22 +125,37 @@ type Options struct {
 	HeapProfileTriggerBytes uint64
 }
 
+const defaultTrigramMax = 20000
+
 // HashOptions contains only the options in Options that upon modification leads to IndexState of IndexStateMismatch during the next index building.
 type HashOptions struct {
 	sizeMax          int
+	trigramMax       int
 	disableCTags     bool
 	ctagsPath        string
+	scipCTagsPath    string
 	cTagsMustSucceed bool
 	largeFiles       []string
+	languageMap      []string
 }
 
 func (o *Options) HashOptions() HashOptions {
+	// which parser sees which language decides the symbols that get indexed
+	languageMap := make([]string, 0, len(o.LanguageMap))
+	for lang, parser := range o.LanguageMap {
+		languageMap = append(languageMap, lang+":"+ctags.ParserToString(parser))
+	}
+	sort.Strings(languageMap)
+
 	return HashOptions{
 		sizeMax:          o.SizeMax,
+		trigramMax:       o.TrigramMax,
 		disableCTags:     o.DisableCTags,
 		ctagsPath:        o.CTagsPath,
+		scipCTagsPath:    o.ScipCTagsPath,
 		cTagsMustSucceed: o.CTagsMustSucceed,
 		largeFiles:       o.LargeFiles,
+		languageMap:      languageMap,
 	}
 }
 
@@ -153,6 +168,19 @@ func (o *Options) GetHash() string {
 	hasher.Write(fmt.Appendf(nil, "%d", h.sizeMax))
 	hasher.Write(fmt.Appendf(nil, "%q", h.largeFiles))
 	hasher.Write(fmt.Appendf(nil, "%t", h.disableCTags))
+
+	// Options that were added to the hash later. They only contribute when they
+	// differ from the default, so hashes stored by older versions stay valid for
+	// default settings.
+	if h.trigramMax != 0 && h.trigramMax != defaultTrigramMax {
+		hasher.Write(fmt.Appendf(nil, "trigramMax=%d", h.trigramMax))
+	}
+	if h.scipCTagsPath != "" && !h.disableCTags {
+		hasher.Write(fmt.Appendf(nil, "scipCTagsPath=%q", h.scipCTagsPath))
+	}
+	if len(h.languageMap) > 0 && !h.disableCTags {
+		hasher.Write(fmt.Appendf(nil, "languageMap=%q", h.languageMap))
+	}
 
 	return fmt.Sprintf("%x", hasher.Sum(nil))
 }
@@ -330,7 +358,7 @@ func (o *Options) SetDefaults() {
 		o.ShardMax = 100 << 20
 	}
 	if o.TrigramMax == 0 {
-		o.TrigramMax = 20000
+		o.TrigramMax = defaultTrigramMax
 	}
 
 	if o.RepositoryDescription.Name == "" && o.RepositoryDescription.URL != "" {
